@@ -13,6 +13,10 @@ use hpke::{
 };
 use std::marker::PhantomData;
 
+/// true when the crate under test was built with `--cfg hpke_verif` (the sequence-number hooks exist); the
+/// `@user` variant of a check is built WITHOUT the guard and skips the steps that need the hooks
+pub const HOOKS: bool = cfg!(hpke_verif);
+
 /// Mode parameters in bytes. `sk_s`/`pk_s` are used in the Auth modes (sender uses both, receiver
 /// only `pk_s`); `psk`/`psk_id` in the PSK modes.
 #[derive(Clone, Debug, Default, PartialEq, Eq, serde::Serialize, serde::Deserialize)]
